@@ -135,3 +135,32 @@ if __name__ == '__main__':
         res = cmd_run(names, args[1:], tier)
         if out_json:
             json.dump(res, open(out_json, 'w'), indent=1)
+
+
+def report(json_path, out_path):
+    res = json.load(open(json_path))
+    lines = ['# Seeded changes x checks', '',
+             'Generated by `tools/seeded.py run all --json seeded/results.json` + `tools/seeded.py report` (quick tier, VERIF_SEED=1).',
+             'Each change is applied in a scratch worktree of /repo HEAD; `DETECTED` = the check exited 1 with a VIOLATION line.', '',
+             '| change | breaks | what it does (author\'s summary) | check | verdict | seconds | first signature |', '|---|---|---|---|---|---|---|']
+    for name in sorted(res):
+        d = os.path.join(HERE, 'seeded', name)
+        if not os.path.isdir(d):
+            d = os.path.join(HERE, 'mutants', name)
+        try:
+            meta = json.load(open(os.path.join(d, 'meta.json')))
+        except Exception:
+            meta = {}
+        summ = (meta.get('summary') or '').replace('|', '/').replace('\n', ' ')[:160]
+        for cid, r in sorted(res[name].items()) if isinstance(res[name], dict) and 'error' not in res[name] else []:
+            sig = (r['signatures'][0] if r.get('signatures') else '').replace('|', '/')[:110]
+            lines.append(f"| {name} | {meta.get('property', '?')} | {summ} | {cid} | {r['verdict']} | {r['seconds']} | `{sig}` |")
+    det = sum(1 for n in res for c, r in (res[n].items() if 'error' not in res[n] else []) if r['verdict'] == 'DETECTED')
+    tot = sum(1 for n in res for c, r in (res[n].items() if 'error' not in res[n] else []))
+    lines += ['', f'{det} of {tot} (change, check) pairs detected.']
+    open(out_path, 'w').write('\n'.join(lines) + '\n')
+    print(f'{det}/{tot} detected -> {out_path}')
+
+
+if __name__ == '__main__' and sys.argv[1] == 'report':
+    report(sys.argv[2], sys.argv[3])
